@@ -632,7 +632,20 @@ Proof.
   destruct Hn as [Hn|Hn]; [subst nd; exists k; now left | destruct (IH _ Hn) as [k' Hk']; exists k'; now right].
 Qed.
 
-Theorem DHome_step d o : DInv d -> nid_scope o = true -> DHome d -> DHome (fst (dstep d o)).
+(* what "every node stored under g carries GraphID = g" needs of an operation *)
+Definition home_scope (o : op) : bool :=
+  match o with
+  | OImport _ _ | OMerge _ _ _ _ => true
+  | OImportDirect g ig => forallb (fun n => has_val (snd n) k_graphid g) (inodes ig)
+  | _ => nid_scope o
+  end.
+
+Lemma nid_home_scope o : nid_scope o = true -> home_scope o = true.
+Proof.
+  destruct o; cbn; auto. intro H. now apply andb_true_iff in H as [_ H].
+Qed.
+
+Theorem DHome_step d o : DInv d -> home_scope o = true -> DHome d -> DHome (fst (dstep d o)).
 Proof.
   intros HI Hsc H.
   assert (Hadd : forall g ig, DHome (fst (d_add_graph d g ig))).
@@ -643,7 +656,7 @@ Proof.
     - apply stamp_in_g. }
   destruct o; simpl in Hsc; simpl; try exact H.
   - apply Hadd.
-  - apply andb_true_iff in Hsc as [H1 H2]. unfold d_add_graph_direct. cbn [fst].
+  - pose proof Hsc as H2. unfold d_add_graph_direct. cbn [fst].
     intro g'. rewrite dget_dput_ctr. apply DHome_put; [exact H|]. apply homed_fresh_graph.
     + change (NoDup (map fst (inodes (relabel ig 1)))). rewrite relabel_inodes_fst. apply seqN_NoDup.
     + intros nd Hn. apply (relabel_snd_in ig 1) in Hn as [k Hk]. rewrite forallb_forall in H2. apply (H2 _ Hk).
@@ -685,7 +698,7 @@ Proof.
   apply IH.
   - intros; apply Hsc; now right.
   - now apply DInv_step.
-  - now apply DHome_step.
+  - apply DHome_step; auto. now apply nid_home_scope.
   - apply DUniq_step; auto; intro g; apply HH.
 Qed.
 
